@@ -1,4 +1,5 @@
 import TongoProofs.Lemmas.Wallet
+import TongoProofs.Lemmas.CellOrdSpec
 /-! Property C15 — wallet address and send parameters follow from key, version and chain state.
 
 Model: `TongoModel/Wallet.lean` (data layouts, state-init, address), `TongoModel/WalletSend.lean`
@@ -33,6 +34,19 @@ theorem address_is_stateinit_hash (code : Cell) (v : Version) (pk : List UInt8) 
   · rw [Cell.hashO_eq_H_reprO]
     unfold dataCell dataBits
     rw [Cell.reprO_leaf]
+
+/-- The hash used by this model (`Cell.hashO`, the TON definition for level-0 cells) is the hash of the shared
+line-by-line model of boc/immutable_cell.go (`Cell.reprHash`, property C02) on every tree of level-0, non-pruned cells
+within Go's depth limit — in particular on the wallet state-init whenever the version's code is such a tree (all
+published codes are: ordinary cells, and one library cell for v5 beta). -/
+theorem hash_model_is_cell_hash (c : Cell) (hl : c.lvl0 = true) (hd : c.depthO ≤ maxDepth) :
+    Cell.reprHash H c = c.hashO? H
+    ∧ ∀ (code : Cell) (v : Version) (pk : List UInt8) (o : Opts), code.lvl0 = true → (walletStateInit code v pk o).lvl0 = true := by
+  refine ⟨?_, ?_⟩
+  · rw [Cell.reprHash_lvl0 H c hl hd]
+    simp [Cell.hashO?, hd]
+  · intro code v pk o hc
+    simp [walletStateInit, stateInitCell, dataCell, Cell.ordinary, Cell.lvl0, Cell.lvl0List, hc, tyPruned]
 
 /-- `wallet.New(…).GetAddress()`, `wallet.GenerateWalletAddress(…)` and the hash of the marshalled
 `wallet.GenerateStateInit(…)` agree: with the workchain given; with the workchain left to its default (0); and for
